@@ -186,9 +186,6 @@ theorem in_place_tag_last (tagLen minTag : Nat) (hmin : 1 ≤ minTag) (b0 b : Bu
   rw [reach_cons] at h
   rcases h with h | h
   · subst h; simp [Op.run, hz, load] at hl; omega
-  rw [reach_cons] at h
-  rcases h with h | h
-  · subst h; simp [Op.run, hz, load] at hl; omega
   simp only [Op.run, hz, ↓reduceIte] at h
   obtain ⟨img, h1, h2⟩ := tail_tag_last tagLen minTag hmin b _ f rfl rfl rfl (by simp only; omega) h hl
   exact ⟨img, h1, Or.inr h2⟩
